@@ -20,6 +20,7 @@ BEGIN_C_DECLS
 #    include <unistd.h>
 #  endif  /* PARSEC_HAVE_UNISTD_H */
 #  include <assert.h>
+#  include "parsec/sys/verif_hooks.h"
 
 #  if !defined(ATOMIC_STATIC_INLINE)
 #    define ATOMIC_STATIC_INLINE static inline
@@ -257,6 +258,7 @@ void parsec_atomic_lock_init( parsec_atomic_lock_t* atomic_lock )
 ATOMIC_STATIC_INLINE
 void parsec_atomic_lock( parsec_atomic_lock_t* atomic_lock )
 {
+    PARSEC_VERIF_LOCK_WAIT(atomic_lock);
     while( !parsec_atomic_cas_int32( atomic_lock, 0, 1) )
         /* nothing */;
 }
